@@ -380,7 +380,8 @@ def rule_progress(ctx, fx, config):
             for rb in [b for b in rd if b in comp]:
                 nread += 1
                 zero_exit = False
-                for b in sorted(comp):
+                # (the switch on the byte count may sit outside the cycle when every Ok arm leaves the loop)
+                for b in sorted(f.live_blocks):
                     t = f.blocks[b]["term"]
                     if t["k"] != "switch" or 0 not in t["vals"]:
                         continue
